@@ -61,13 +61,19 @@ def toU64 (d : Bytes) : Except Err Nat :=
       | .ok (r, left) => if left.isEmpty then .ok r else .error .allDigits
     else .error .allDigits
 
+def I64_MIN_ABS : Nat := 2^63
+
 /-- the tail shared by the three arms of `to_i64_t`: `to_u64_t2(data, start)`, then
-`i64::try_from(val)` (fails above `i64::MAX`), then `sign * val`. -/
+`if sign < 0 { 0i64.checked_sub_unsigned(val) } else { i64::try_from(val).ok() }` (the first
+fails above `2^63`, the second above `i64::MAX`), `Overflow` on `None`. -/
 def toI64Go (data : Bytes) (sign : Int) (start : Nat) : Except Err (Int × Bytes) :=
   match toU64T2 data start with
   | .error e => .error e
   | .ok (v, rest) =>
-    if v > I64_MAX then .error .overflow else .ok (sign * (v : Int), rest)
+    if sign < 0 then
+      if v > I64_MIN_ABS then .error .overflow else .ok (0 - (v : Int), rest)
+    else
+      if v > I64_MAX then .error .overflow else .ok ((v : Int), rest)
 
 /-- scalar.rs:249 `to_i64_t` -/
 def toI64T (d : Bytes) : Except Err (Int × Bytes) :=
